@@ -86,6 +86,9 @@ func ChildMain(args []string, h Handler) int {
 	return 0
 }
 
+// MaxFailures bounds the number of crashed / hung cases after which the remaining cases of a Run are skipped.
+var MaxFailures = 12
+
 // Run executes the cases with `parallel` child processes of the current binary.
 func Run(worker string, cases []Case, parallel int, perCase time.Duration) ([]Result, error) {
 	exe, err := os.Executable()
@@ -119,6 +122,9 @@ func RunExe(exe string, env []string, worker string, cases []Case, parallel int,
 	}
 	var wg sync.WaitGroup
 	var firstErr error
+	// Once MaxFailures cases have crashed or hung, the cases not yet started are skipped (status "skipped"): each
+	// failure costs a time-out or a process restart, and a handful of them already decides the run.
+	failures := 0
 	for w := 0; w < parallel; w++ {
 		if len(chunks[w]) == 0 {
 			continue
@@ -128,6 +134,17 @@ func RunExe(exe string, env []string, worker string, cases []Case, parallel int,
 			defer wg.Done()
 			round := 0
 			for len(todo) > 0 {
+				mu.Lock()
+				stop := failures >= MaxFailures
+				if stop {
+					for _, c := range todo {
+						results[c.ID] = Result{ID: c.ID, Status: "skipped"}
+					}
+				}
+				mu.Unlock()
+				if stop {
+					return
+				}
 				round++
 				cf := filepath.Join(dir, fmt.Sprintf("cases-%d-%d.json", w, round))
 				jf := filepath.Join(dir, fmt.Sprintf("journal-%d-%d", w, round))
@@ -172,6 +189,7 @@ func RunExe(exe string, env []string, worker string, cases []Case, parallel int,
 				}
 				mu.Lock()
 				results[cur] = Result{ID: cur, Status: status, Detail: detail}
+				failures++
 				mu.Unlock()
 				todo = todo[idx+1:]
 			}
